@@ -38,6 +38,8 @@ type Clause struct {
 type LoopSpec struct {
 	Invariants []*Clause
 	Decreases  *Clause
+	Modifies   []*Clause // objects (pointers/maps) the loop may write; others are framed
+	HasMod     bool
 }
 
 type Param struct{ Name, Type string }
@@ -92,7 +94,7 @@ type PkgContracts struct {
 var clauseKeywords = map[string]bool{
 	"func": true, "trusted": true, "pure": true, "inline": true, "ignore": true, "spec": true, "lemma": true, "import": true,
 	"requires": true, "ensures": true, "modifies": true, "loop": true, "arith": true, "overflow": true, "allow_panic": true,
-	"theory": true, "untrusted_input": true, "pragma": true, "assert": true, "note": true,
+	"theory": true, "untrusted_input": true, "pragma": true, "assert": true, "note": true, "tparams": true,
 }
 
 type rawClause struct {
@@ -346,9 +348,19 @@ func loadContracts(dir, pkgPath string) (*PkgContracts, error) {
 					ls.Invariants = append(ls.Invariants, &Clause{Text: rest, Line: c.line})
 				case "decreases":
 					ls.Decreases = &Clause{Text: rest, Line: c.line}
+				case "modifies":
+					ls.HasMod = true
+					for _, m := range splitTop(rest) {
+						m = strings.TrimSpace(m)
+						if m != "" && m != "nothing" {
+							ls.Modifies = append(ls.Modifies, &Clause{Text: m, Line: c.line})
+						}
+					}
 				default:
 					return nil, fmt.Errorf("%s:%d: loop clause %q", path, c.line, f[1])
 				}
+			case "tparams":
+				cur.TParams = strings.TrimSpace(c.text)
 			case "arith":
 				cur.Arith = strings.TrimSpace(c.text)
 			case "overflow":
@@ -426,6 +438,7 @@ func __fresh[T any](x T) bool       { return true }
 func __is(err error, target error) bool { return true }
 func __ri(n int) int                    { return 0 }
 func __eq[T any](a, b T) bool           { return true }
+func __alloc[T any](x T) bool           { return true }
 func __seen[K comparable](k K) bool     { return true }
 
 `)
@@ -465,7 +478,11 @@ func __seen[K comparable](k K) bool     { return true }
 				for _, p := range fs.Params {
 					ps = append(ps, p.Name+" "+p.Type)
 				}
-				fmt.Fprintf(&b, "func %s(%s) %s { panic(\"uninterpreted\") }\n", fs.Name, strings.Join(ps, ", "), ret)
+				tp := ""
+				if fs.TParams != "" {
+					tp = "[" + fs.TParams + "]"
+				}
+				fmt.Fprintf(&b, "func %s%s(%s) %s { panic(\"uninterpreted\") }\n", fs.Name, tp, strings.Join(ps, ", "), ret)
 				continue
 			}
 			c := &Clause{Text: fs.Body, Line: fs.Line}
@@ -513,7 +530,12 @@ func __seen[K comparable](k K) bool     { return true }
 				}
 			}
 			if ls.Decreases != nil {
-				if err := emit(fmt.Sprintf("__dec_%s_L%d", base, n), fs.TParams, lv, "int", ls.Decreases); err != nil {
+				if err := emit(fmt.Sprintf("__dec_%s_L%d", base, n), fs.TParams, lv, "any", ls.Decreases); err != nil {
+					return "", err
+				}
+			}
+			for i, c := range ls.Modifies {
+				if err := emit(fmt.Sprintf("__lmod_%s_L%d_%d", base, n, i), fs.TParams, lv, "any", c); err != nil {
 					return "", err
 				}
 			}
